@@ -180,6 +180,66 @@ pub fn check_library(lib: &[(String, String)], allow_known: bool) -> Option<(Str
     None
 }
 
+/// inlay hints: the model's `Hints.inlayHints` on the last state of a history vs `handle_inlay_hints` of a server that
+/// went through the same history (labels and lines, in order)
+fn hints_correspondence(model: &mut Model, rep: &mut Report, h: &History) {
+    let Some(reply) = hist::model_reply_parts(model, h, &["hints"]) else { return };
+    let states = dump::children(&reply);
+    let Some(last) = states.last() else { return };
+    let parts = dump::children(last);
+    let Some(mh) = parts.iter().find(|p| p.starts_with("(hints")) else {
+        rep.count("hints_corr_skipped_model_error_or_unmodelled");
+        return;
+    };
+    let mut keys: Vec<String> = h.import.iter().chain(h.steps.iter()).map(|(k, _)| Key::from_file_name(k).to_string()).collect();
+    keys.sort();
+    keys.dedup();
+    let real = dump::catch(|| {
+        crate::act::with_via(crate::act::Via::Import, || {
+            let state: HashMap<String, String> = h.import.iter().cloned().collect();
+            let mut server = c01::server_for(&state, &h.ext);
+            for (k, t) in &h.steps {
+                server.handle_did_change_text_document(lsp_types::DidChangeTextDocumentParams {
+                    text_document: lsp_types::VersionedTextDocumentIdentifier { uri: c01::uri_for(k), version: 2 },
+                    content_changes: vec![lsp_types::TextDocumentContentChangeEvent { range: None, range_length: None, text: t.clone() }],
+                });
+            }
+            let mut out = String::from("(hints");
+            for k in &keys {
+                let hs = dump::catch(|| server.handle_inlay_hints(InlayHintParams { text_document: TextDocumentIdentifier { uri: c01::uri_for(k) }, range: Range::default(), work_done_progress_params: Default::default() }));
+                match hs {
+                    Ok(hs) => {
+                        let items: String = hs
+                            .iter()
+                            .map(|h| match &h.label {
+                                InlayHintLabel::String(s) => format!(" ({} {})", crate::sexp::hex(s), h.position.line),
+                                _ => " (?)".to_string(),
+                            })
+                            .collect();
+                        out.push_str(&format!(" ({} (ok{}))", crate::sexp::hex(k), items));
+                    }
+                    Err(_) => out.push_str(&format!(" ({} (error))", crate::sexp::hex(k))),
+                }
+            }
+            out.push(')');
+            out
+        })
+    });
+    let Ok(real) = real else {
+        rep.count("hints_corr_skipped_impl_panic");
+        return;
+    };
+    rep.correspondence_cases += 1;
+    rep.count("hints_corr_cases");
+    // error sites are compared as a class only
+    let norm = |s: &str| -> String {
+        dump::children(s)[1..].iter().map(|e| if e.contains("(error") { format!("{} error", dump::children(e)[0]) } else { e.to_string() }).collect::<Vec<_>>().join(" ")
+    };
+    if norm(mh) != norm(&real) {
+        rep.disagree(json!({"op": "Hints.inlayHints (last state of graph.history)", "model": norm(mh), "impl": norm(&real), "history": hist::to_json(h)}));
+    }
+}
+
 pub fn run(ctx: &Ctx, model: &mut Model, rep: &mut Report) {
     rep.rule = "libraries of 2-6 notes in root and sub-directories with block references and inline links (in paragraphs, headings, list items, emphasis) to existing, missing and own notes, many links to one note, external urls, `.md` suffixes; correspondence: model block/inline reference sets and line ranges vs the real getters after import and edits; oracle: textDocument/references + backlink-count hints of every note vs an independent scan of the sources (own pulldown pass + crate relative-path); non-trivial = ≥1 link to a note; distinct by text".to_string();
     let parse_lib = |v: &serde_json::Value| -> Vec<(String, String)> { v.as_array().map(|a| a.iter().map(|p| (p[0].as_str().unwrap().to_string(), p[1].as_str().unwrap().to_string())).collect()).unwrap_or_default() };
@@ -249,6 +309,7 @@ pub fn run(ctx: &Ctx, model: &mut Model, rep: &mut Report) {
                     }
                 }
             }
+            hints_correspondence(model, rep, &h);
         }
         let via = crate::act::via_for(i as u64);
         rep.count(&format!("loaded_via_{:?}", via));
